@@ -43,6 +43,8 @@ Hm(n, t) == [k |-> "Hm", n |-> n, t |-> t]    \* Hashmap n T (non-empty, inline)
 If(fl, t) == [k |-> "If", fl |-> fl, t |-> t]                      \* fl?T with fl a one-bit field
 IfBit(fl, bit, t) == [k |-> "IfBit", fl |-> fl, bit |-> bit, t |-> t]   \* flags . bit?T
 RefPick(fl, t0, t1) == [k |-> "RefPick", fl |-> fl, t0 |-> t0, t1 |-> t1]  \* ^(T fl)
+BinTree(t) == [k |-> "BinTree", t |-> t]      \* bt_leaf$0 leaf:X / bt_fork$1 left:^(BinTree X) right:^(BinTree X); value [leaf |-> <<v>>, kids |-> <<>>] or [leaf |-> <<>>, kids |-> <<l, r>>]
+HmS(n, t) == [k |-> "HmS", n |-> n, t |-> t]  \* Hashmap n T whose n-bit keys the library reports as SIGNED integers (config parameter ids)
 Lite(t) == [k |-> "Lite", t |-> t]            \* same encoding as t; the value generator does not expand variations below it (t is varied on its own)
 HmAug(n, t, x) == [k |-> "HmAug", n |-> n, t |-> t, x |-> x]   \* HashmapAug n T X (non-empty, inline); value [es |-> entries [k, v, x], post |-> <<>> or the extras read]
 F(name, t) == [name |-> name, t |-> t]
@@ -87,7 +89,9 @@ EncT(t, v, ctx) ==
       [] t.k = "AnyRest" -> v
       [] t.k = "Named" -> EncAlt(AltOf(t.nm, v.c), v)
       [] t.k = "HmE" -> IF v = <<>> THEN Only(<<0>>) ELSE [b |-> <<1>>, r |-> <<DictTree(t.n, t.t, v)>>]
-      [] t.k = "Hm" -> DictTree(t.n, t.t, v)
+      [] t.k \in {"Hm", "HmS"} -> DictTree(t.n, t.t, v)
+      [] t.k = "BinTree" -> IF v.leaf # <<>> THEN Cat(Only(<<0>>), EncT(t.t, v.leaf[1], ctx))
+                            ELSE [b |-> <<1>>, r |-> <<EncT(t, v.kids[1], ctx), EncT(t, v.kids[2], ctx)>>]
       [] t.k = "Lite" -> EncT(t.t, v, ctx)
       [] t.k = "HmAug" ->
             LET es == v.es
@@ -137,7 +141,9 @@ Leaf(path, k, a) == [path |-> path, k |-> k, a |-> a]
 BytesOrInt(bits) == IF Len(bits) % 8 = 0 /\ Len(bits) >= 16 THEN [bytes |-> BitsToBytes(bits)] ELSE [int |-> BigOfUBits(bits)]
 BigOfBytes(bs) == [neg |-> 0, mag |-> StripLead(bs)]
 BigOfSBytes(bs) == BigOfSBits(BytesToBits(bs))
-RECURSIVE Leaves(_, _, _, _), Flat2R(_, _, _, _)
+RECURSIVE Leaves(_, _, _, _), Flat2R(_, _, _, _), BtLeaves(_)
+\* the leaves of a binary tree, left to right
+BtLeaves(v) == IF v.leaf # <<>> THEN v.leaf ELSE BtLeaves(v.kids[1]) \o BtLeaves(v.kids[2])
 Leaves(t, v, ctx, path) ==
     CASE t.k \in {"U", "Leq", "Zero", "One", "UMax", "UPos"} -> <<Leaf(path, "U", [int |-> BigOfUBits(v)])>>
       [] t.k = "I" -> <<Leaf(path, t.k, [int |-> BigOfSBits(v)])>>
@@ -159,8 +165,12 @@ Leaves(t, v, ctx, path) ==
             LET a == AltOf(t.nm, v.c) IN
             FoldLeft(LAMBDA acc, f : acc \o Leaves(f.t, v[f.name], v, Append(path, f.name)),
                      <<Leaf(path, "Ctor", [ctor |-> v.c])>>, a.fs)
-      [] t.k \in {"HmE", "Hm"} ->
+      [] t.k \in {"HmE", "Hm", "HmS"} ->
             <<Leaf(path, "Count", [count |-> Len(v)])>> \o Flat2R(t, v, path, 1)
+      [] t.k = "BinTree" ->            \* reported as the list of its leaves (positions stand in for keys)
+            LET ls == BtLeaves(v) IN
+            <<Leaf(path, "Count", [count |-> Len(ls)])>>
+            \o Flat2R([k |-> "Seq", t |-> t.t], [i \in 1..Len(ls) |-> [k |-> NatBits(i - 1, 16), v |-> ls[i]]], path, 1)
       [] t.k = "Lite" -> Leaves(t.t, v, ctx, path)
       [] t.k = "HmAug" ->
             LET es == v.es
@@ -178,7 +188,7 @@ Leaves(t, v, ctx, path) ==
 \* dictionary entries in the order given (ascending keys): a "#key" leaf followed by the leaves of the value
 Flat2R(t, v, path, i) ==
     IF i > Len(v) THEN <<>>
-    ELSE <<Leaf(Append(path, "#key"), "Key", [int |-> BigOfUBits(v[i].k)])>>
+    ELSE <<Leaf(Append(path, "#key"), "Key", [int |-> IF t.k = "HmS" THEN BigOfSBits(v[i].k) ELSE BigOfUBits(v[i].k)])>>
          \o Leaves(t.t, v[i].v, v[i], Append(path, "#val")) \o Flat2R(t, v, path, i + 1)
 FlattenV(nm, v) == Leaves(Named(nm), v, v, <<>>)
 
@@ -259,7 +269,14 @@ DecT(t, sl, ctx) ==
             ELSE IF d.sl.r = <<>> \/ IsExotic(d.sl.r[1]) THEN Bad
             ELSE LET e == DecDict(SlOf(d.sl.r[1]), t.n, <<>>, t.t) IN
                  IF e.ok /\ EmptySl(e.sl) THEN Good(e.v, TakeR(d.sl, 1)) ELSE Bad
-      [] t.k = "Hm" -> DecDict(sl, t.n, <<>>, t.t)
+      [] t.k \in {"Hm", "HmS"} -> DecDict(sl, t.n, <<>>, t.t)
+      [] t.k = "BinTree" ->
+            LET d == DecBits(sl, 1) IN
+            IF ~d.ok THEN Bad
+            ELSE IF d.v = <<0>> THEN LET e == DecT(t.t, d.sl, ctx) IN IF ~e.ok THEN Bad ELSE Good([leaf |-> <<e.v>>, kids |-> <<>>], e.sl)
+            ELSE IF Len(d.sl.r) < 2 \/ IsExotic(d.sl.r[1]) \/ IsExotic(d.sl.r[2]) THEN Bad
+            ELSE LET a == DecT(t, SlOf(d.sl.r[1]), ctx)  b == DecT(t, SlOf(d.sl.r[2]), ctx) IN
+                 IF a.ok /\ b.ok /\ EmptySl(a.sl) /\ EmptySl(b.sl) THEN Good([leaf |-> <<>>, kids |-> <<a.v, b.v>>], TakeR(d.sl, 2)) ELSE Bad
       [] t.k = "HmAug" ->
             LET e == DecAug(sl, t.n, <<>>, t) IN IF ~e.ok THEN Bad ELSE Good([es |-> e.v, post |-> e.post], e.sl)
       [] t.k = "HmAugE" ->
